@@ -448,6 +448,7 @@ class Channel(object):
                     return
             else:
                 q = b.declare_queue(queue, bool(durable), bool(exclusive), bool(auto_delete), arguments, self.connection)
+            self.last_queue = queue      # AMQP 0-9-1: an empty queue name in bind/consume means the last queue declared on the channel
             b.declared.append(("queue", queue, bool(durable), bool(exclusive), bool(auto_delete), arguments))
             b.log("queue_declare", queue=queue, durable=bool(durable), exclusive=bool(exclusive),
                   auto_delete=bool(auto_delete), arguments=arguments)
@@ -457,6 +458,8 @@ class Channel(object):
     def queue_bind(self, queue, exchange, routing_key=None, arguments=None, callback=None):
         self._check_open()
         b = self.broker
+        if queue == "" and getattr(self, "last_queue", None):
+            queue = self.last_queue
         if queue not in b.queues:
             self._broker_close(404, "NOT_FOUND - no queue '%s' in vhost '/'" % queue)
             return
